@@ -2254,6 +2254,17 @@ class EEA:
         if (fr.module.relpath, e.lineno) in self.arity_errors():
             self.obligations += 1
             out = self.merge(out, self._one(S.TE, self.site(fr, e, "call-arity", self.arity_errors()[(fr.module.relpath, e.lineno)]), fr))
+        if fullname in ("builtins.int", "builtins.float", "builtins.round") and len(e.args) == 1 and not e.keywords and self._evaluated_at_construction(e, fr):
+            self.discharged.append({"site": self.site(fr, e, "call").loc(), "what": norm(e), "by": "the same conversion of the same field of this frozen dataclass instance completed in __post_init__ when the object was built"})
+            return out
+        if fullname in ("builtins.int", "builtins.float", "builtins.str", "builtins.bool", "builtins.len", "builtins.round") and len(e.args) == 1 and not e.keywords:
+            # a conversion of an instance of a repository class that defines the special method: that method runs
+            dn = {"builtins.int": "__int__", "builtins.float": "__float__", "builtins.str": "__str__", "builtins.bool": "__bool__", "builtins.len": "__len__", "builtins.round": "__round__"}[fullname]
+            c_ = self._repo_class_of_type(self.prog.type_of(fr.module, e.args[0]))
+            m_ = c_.find_method(dn) if c_ is not None else None
+            if m_ is not None and not m_.is_abstract():
+                sub_ = self.escapes(Frame(self.I.make_callee(m_, c_), fr.V))
+                return self.merge(out, self._through(sub_, fr))
         if fullname and fullname.endswith(".get_protocol") and fullname.startswith(PKG) and self._validated_version_read(e, fr):
             self.discharged.append({"site": self.site(fr, e, "call").loc(), "what": norm(e), "by": "the stored version read here was accepted by get_protocol (a cached, deterministic lookup) before every store into that attribute: the same call cannot fail now"})
             return out
@@ -2263,6 +2274,42 @@ class EEA:
         for t in targets:
             out = self.merge(out, self.target_escapes(t, e, st))
         return out
+
+    def _evaluated_at_construction(self, e: ast.Call, fr) -> bool:
+        """`round(self.value)` in a method of a `@dataclass(frozen=True)` class whose __post_init__ evaluates the very same
+        expression unconditionally (the test of a top-level `if`, a top-level assignment / expression statement): the
+        field cannot have changed since, and the conversion of the same float is deterministic."""
+        f = fr.func
+        c = f.cls
+        if c is None or f.name == "__post_init__" or not (isinstance(e.args[0], ast.Attribute) and isinstance(e.args[0].value, ast.Name) and f.positional_params[:1] == [e.args[0].value.id]):
+            return False
+        frozen = any(isinstance(d, ast.Call) and norm(d.func).rsplit(".", 1)[-1] == "dataclass" and any(k.arg == "frozen" and isinstance(k.value, ast.Constant) and k.value.value is True for k in d.keywords) for d in c.node.decorator_list)
+        pi = c.find_method("__post_init__")
+        if not frozen or pi is None or pi.cls is not c:
+            return False
+        if any(isinstance(n, ast.Call) and norm(n.func).endswith("__setattr__") for n in ast.walk(c.node)):
+            return False
+        selfn = pi.positional_params[0]
+        want = norm(e).replace(f"{e.args[0].value.id}.", f"{selfn}.", 1) if e.args[0].value.id != selfn else norm(e)
+        for st in pi.node.body:
+            roots = [st.test] if isinstance(st, ast.If) else [st.value] if isinstance(st, (ast.Assign, ast.Expr, ast.AnnAssign)) and getattr(st, "value", None) is not None else []
+            for r in roots:
+                stack = [r]
+                while stack:
+                    x = stack.pop()
+                    if isinstance(x, ast.Call) and norm(x) == want:
+                        return True
+                    if isinstance(x, ast.BoolOp):
+                        stack.append(x.values[0])
+                    elif isinstance(x, ast.IfExp):
+                        stack.append(x.test)
+                    elif isinstance(x, (ast.Lambda, ast.ListComp, ast.SetComp, ast.DictComp, ast.GeneratorExp)):
+                        continue
+                    else:
+                        stack.extend(ast.iter_child_nodes(x))
+            if not isinstance(st, (ast.If, ast.Assign, ast.Expr, ast.AnnAssign)) or (isinstance(st, ast.If) and any(isinstance(n, ast.Return) for n in ast.walk(st))):
+                break
+        return False
 
     def _validated_version_read(self, e: ast.Call, fr) -> bool:
         """`get_protocol(<obj>.<attr> or DEFAULT_PROTOCOL_VERSION)` (derived protocol state): true when every store into
